@@ -85,26 +85,36 @@ def atTermEnd (s : Inp) : Bool :=
     the matched text and the rest. -/
 def termStartChar (s : Inp) : Option (List Char × Inp) :=
   match s with
-  | '\\' :: c :: r => some (['\\', c], r)
-  | c :: r => if invalidStart (c :: r) then none else some ([c], r)
   | [] => none
+  | c :: r =>
+    if c = '\\' then
+      match r with
+      | c2 :: r2 => some (['\\', c2], r2)      -- ESC_CHAR
+      | [] => none                              -- a lone backslash is an invalid start
+    else if invalidStart (c :: r) then none else some ([c], r)
 
 /-- `TERM_CHAR*` with `TERM_CHAR = _{ TERM_START_CHAR | "-" | "+" | "=" }` (greedy) -/
 def termChars : Inp → List Char × Inp
   | [] => ([], [])
-  | '\\' :: c :: r => let (m, r') := termChars r; ('\\' :: c :: m, r')
   | c :: r =>
-    if !invalidStart (c :: r) || c == '-' || c == '+' || c == '=' then
-      let (m, r') := termChars r; (c :: m, r')
+    if c = '\\' then
+      match r with
+      | c2 :: r2 => let p := termChars r2; ('\\' :: c2 :: p.1, p.2)
+      | [] => ([], [c])
+    else if !invalidStart (c :: r) || c == '-' || c == '+' || c == '=' then
+      let p := termChars r; (c :: p.1, p.2)
     else ([], c :: r)
 
 /-- `TERM_CHAR_GLOB*` with `TERM_CHAR_GLOB = _{ TERM_CHAR | STAR | QUESTIONMARK }` -/
 def termCharsGlob : Inp → List Char × Inp
   | [] => ([], [])
-  | '\\' :: c :: r => let (m, r') := termCharsGlob r; ('\\' :: c :: m, r')
   | c :: r =>
-    if !invalidStart (c :: r) || c == '-' || c == '+' || c == '=' || c == '*' || c == '?' then
-      let (m, r') := termCharsGlob r; (c :: m, r')
+    if c = '\\' then
+      match r with
+      | c2 :: r2 => let p := termCharsGlob r2; ('\\' :: c2 :: p.1, p.2)
+      | [] => ([], [c])
+    else if !invalidStart (c :: r) || c == '-' || c == '+' || c == '=' || c == '*' || c == '?' then
+      let p := termCharsGlob r; (c :: p.1, p.2)
     else ([], c :: r)
 
 /-- `!(AND | OR | NOT)` -/
@@ -115,17 +125,17 @@ def term (s : Inp) : Option (List Char × Inp) :=
   if !noKeyword s then none
   else match termStartChar s with
     | none => none
-    | some (a, r) => let (m, r') := termChars r; some (a ++ m, r')
+    | some (a, r) => let p := termChars r; some (a ++ p.1, p.2)
 
 /-- `TERM_PREFIX = @{ TERM_START_CHAR ~ TERM_CHAR* ~ STAR ~ &TERM_END_CHAR }` (text includes the `*`) -/
 def termPrefix (s : Inp) : Option (List Char × Inp) :=
   match termStartChar s with
   | none => none
   | some (a, r) =>
-    let (m, r') := termChars r
-    match r' with
-    | '*' :: r'' => if atTermEnd r'' then some (a ++ m ++ ['*'], r'') else none
-    | _ => none
+    let p := termChars r
+    match p.2 with
+    | [] => none
+    | c :: r'' => if c = '*' && atTermEnd r'' then some (a ++ p.1 ++ ['*'], r'') else none
 
 /-- `TERM_GLOB = @{ TERM_START_CHAR_GLOB ~ TERM_CHAR_GLOB* ~ &TERM_END_CHAR }` -/
 def termGlob (s : Inp) : Option (List Char × Inp) :=
@@ -145,21 +155,21 @@ def termGlob (s : Inp) : Option (List Char × Inp) :=
 /-- `(ESC_CHAR | !DQUOTE ~ ANY)*` followed by the closing `DQUOTE`: the text between the quotes. -/
 def phraseBody : Inp → Option (List Char × Inp)
   | [] => none
-  | '\\' :: c :: r => match phraseBody r with
-    | some (m, r') => some ('\\' :: c :: m, r')
-    | none => none
-  | '"' :: r => some ([], r)
-  | c :: r => match phraseBody r with
-    | some (m, r') => some (c :: m, r')
-    | none => none
+  | c :: r =>
+    if c = '\\' then
+      match r with
+      | c2 :: r2 => (phraseBody r2).map fun p => ('\\' :: c2 :: p.1, p.2)     -- ESC_CHAR
+      | [] => none            -- `!DQUOTE ~ ANY` takes the backslash, then the closing quote is missing
+    else if c = '"' then some ([], r)
+    else (phraseBody r).map fun p => (c :: p.1, p.2)
 
 /-- `PHRASE = @{ DQUOTE ~ (ESC_CHAR | !DQUOTE ~ ANY)* ~ DQUOTE }` (text includes both quotes) -/
 def phrase (s : Inp) : Option (List Char × Inp) :=
   match s with
-  | '"' :: r => match phraseBody r with
-    | some (m, r') => some ('"' :: m ++ ['"'], r')
-    | none => none
-  | _ => none
+  | [] => none
+  | c :: r =>
+    if c = '"' then (phraseBody r).map fun p => ('"' :: p.1 ++ ['"'], p.2)
+    else none
 
 def isAsciiDigit (c : Char) : Bool := decide ('0'.toNat ≤ c.toNat) && decide (c.toNat ≤ '9'.toNat)
 
@@ -172,17 +182,24 @@ def digits : Inp → List Char × Inp
 def numValue (s : Inp) : Option (List Char × Inp) :=
   let (sign, r0) : List Char × Inp :=
     match s with
-    | '-' :: r => (['-'], r)
-    | '\\' :: '-' :: r => (['\\', '-'], r)
-    | r => ([], r)
+    | [] => ([], s)
+    | c :: r =>
+      if c = '-' then (['-'], r)
+      else if c = '\\' then
+        (match r with
+         | d :: r' => if d = '-' then (['\\', '-'], r') else ([], s)
+         | [] => ([], s))
+      else ([], s)
   let (ip, r1) := digits r0
   if ip.isEmpty then none
   else
     match r1 with
-    | '.' :: r2 =>
-      let (fp, r3) := digits r2
-      if fp.isEmpty then some (sign ++ ip, r1) else some (sign ++ ip ++ ['.'] ++ fp, r3)
-    | _ => some (sign ++ ip, r1)
+    | [] => some (sign ++ ip, r1)
+    | c :: r2 =>
+      if c = '.' then
+        let (fp, r3) := digits r2
+        if fp.isEmpty then some (sign ++ ip, r1) else some (sign ++ ip ++ ['.'] ++ fp, r3)
+      else some (sign ++ ip, r1)
 
 /-- `NUMERIC_TERM = ${ NUM_VALUE ~ ("E" ~ NUM_VALUE)? }` -/
 def numericTerm (s : Inp) : Option (List Char × Inp) :=
@@ -190,20 +207,28 @@ def numericTerm (s : Inp) : Option (List Char × Inp) :=
   | none => none
   | some (a, r) =>
     match r with
-    | 'E' :: r1 =>
-      match numValue r1 with
-      | some (b, r2) => some (a ++ ['E'] ++ b, r2)
-      | none => some (a, r)
-    | _ => some (a, r)
+    | [] => some (a, r)
+    | c :: r1 =>
+      if c = 'E' then
+        match numValue r1 with
+        | some (b, r2) => some (a ++ ['E'] ++ b, r2)
+        | none => some (a, r)
+      else some (a, r)
 
 /-- `operator = { GT_EQ | LT_EQ | GT | LT }` -/
 def operator (s : Inp) : Option (Cmp × Inp) :=
   match s with
-  | '>' :: '=' :: r => some (.gte, r)
-  | '<' :: '=' :: r => some (.lte, r)
-  | '>' :: r => some (.gt, r)
-  | '<' :: r => some (.lt, r)
-  | _ => none
+  | [] => none
+  | c :: r =>
+    if c = '>' then
+      (match r with
+       | d :: r' => if d = '=' then some (.gte, r') else some (.gt, r)
+       | [] => some (.gt, r))
+    else if c = '<' then
+      (match r with
+       | d :: r' => if d = '=' then some (.lte, r') else some (.lt, r)
+       | [] => some (.lt, r))
+    else none
 
 /-- `RANGE_VALUE = @{ (!(WHITESPACE | RSQRBRACKET | RBRACKET) ~ ANY)+ }` (as `*`; the caller checks
     non-emptiness) -/
@@ -246,9 +271,8 @@ def comparison (s : Inp) : Option (PValue × Inp) :=
 def range (s : Inp) : Option (PValue × Inp) :=
   let opening : Option (Bool × Inp) :=
     match s with
-    | '[' :: r => some (true, r)
-    | '{' :: r => some (false, r)
-    | _ => none
+    | [] => none
+    | c :: r => if c = '[' then some (true, r) else if c = '{' then some (false, r) else none
   match opening with
   | none => none
   | some (lsq, r0) =>
@@ -262,48 +286,50 @@ def range (s : Inp) : Option (PValue × Inp) :=
         | none => none
         | some (v2, r3) =>
           match skipWs r3 with
-          | ']' :: r4 => some (.range lsq v1 v2 true, r4)
-          | '}' :: r4 => some (.range lsq v1 v2 false, r4)
-          | _ => none
+          | [] => none
+          | c :: r4 =>
+            if c = ']' then some (.range lsq v1 v2 true, r4)
+            else if c = '}' then some (.range lsq v1 v2 false, r4)
+            else none
+
+/-- ordered choice -/
+def alt {α : Type} (a b : Option α) : Option α :=
+  match a with
+  | some x => some x
+  | none => b
+
+/-- `STAR ~ &TERM_END_CHAR` -/
+def starValue (s : Inp) : Option (PValue × Inp) :=
+  match s with
+  | [] => none
+  | c :: r => if c = '*' && atTermEnd r then some (.star, r) else none
+
+def phraseValue (s : Inp) : Option (PValue × Inp) := (phrase s).map fun p => (.phrase p.1, p.2)
+
+def prefixValue (s : Inp) : Option (PValue × Inp) := (termPrefix s).map fun p => (.pfx p.1, p.2)
+
+/-- `TERM ~ &TERM_END_CHAR` -/
+def termValue (s : Inp) : Option (PValue × Inp) :=
+  match term s with
+  | some (t, r) => if atTermEnd r then some (.term t, r) else none
+  | none => none
+
+def globValue (s : Inp) : Option (PValue × Inp) := (termGlob s).map fun p => (.glob p.1, p.2)
 
 /-- `value = ${ STAR ~ &TERM_END_CHAR | PHRASE | TERM_PREFIX | comparison | range
               | TERM ~ &TERM_END_CHAR | TERM_GLOB }` -/
 def value (s : Inp) : Option (PValue × Inp) :=
-  let alt1 : Option (PValue × Inp) :=
-    match s with
-    | '*' :: r => if atTermEnd r then some (.star, r) else none
-    | _ => none
-  match alt1 with
-  | some x => some x
-  | none =>
-  match phrase s with
-  | some (t, r) => some (.phrase t, r)
-  | none =>
-  match termPrefix s with
-  | some (t, r) => some (.pfx t, r)
-  | none =>
-  match comparison s with
-  | some x => some x
-  | none =>
-  match range s with
-  | some x => some x
-  | none =>
-  let alt6 : Option (PValue × Inp) :=
-    match term s with
-    | some (t, r) => if atTermEnd r then some (.term t, r) else none
-    | none => none
-  match alt6 with
-  | some x => some x
-  | none =>
-  match termGlob s with
-  | some (t, r) => some (.glob t, r)
-  | none => none
+  alt (starValue s) <| alt (phraseValue s) <| alt (prefixValue s) <| alt (comparison s) <| alt (range s) <|
+    alt (termValue s) (globValue s)
 
 /-- `field = ${ TERM ~ COLON }`: the text of the inner `TERM` token -/
 def field (s : Inp) : Option (List Char × Inp) :=
   match term s with
-  | some (t, ':' :: r) => some (t, r)
-  | _ => none
+  | none => none
+  | some (t, r) =>
+    match r with
+    | [] => none
+    | c :: r' => if c = ':' then some (t, r') else none
 
 /-- `matchall = @{ STAR ~ COLON ~ STAR }` -/
 def matchall (s : Inp) : Option Inp := stripPrefix ['*', ':', '*'] s
@@ -320,9 +346,8 @@ def multitermLookahead (s : Inp) : Bool :=
   | none => false
   | some (_, r) =>
     let colonOrStar := match r with
-      | ':' :: _ => true
-      | '*' :: _ => true
-      | _ => false
+      | [] => false
+      | c :: _ => c == ':' || c == '*'
     let wsConj := match ws1 r with
       | some r' => (kwAnd r').isSome || (kwOr r').isSome
       | none => false
